@@ -1594,6 +1594,8 @@ class Exec(Interp):
                 return [(st, v)]
             if name == 'clone':
                 return [(st, self.copy_val(st, v))]
+            if name == 'into_iter' and v[0] == 'adt' and v[1] in ('std::ops::Range', 'core::ops::Range'):
+                return [(st, v)]            # `impl<I: Iterator> IntoIterator for I`: the range itself
             if name in ('deref', 'deref_mut', 'as_ref', 'as_mut', 'borrow', 'borrow_mut'):
                 return [(st, A[0] if A[0][0] == 'ref' else self.dest_top(st, fr, t))]
             if name == 'into' and tr.endswith('convert::Into') and len(c.get('args', [])) == 2:
@@ -1699,13 +1701,48 @@ class Exec(Interp):
             return [(st, self.dest_top(st, fr, t))]
         if name in ('reverse', 'fill') and d.startswith('core::slice::'):
             return [(st, self.dest_top(st, fr, t))]
+        if name == 'next' and A and A[0][0] == 'ref' and not c.get('local'):
+            # `for i in a..b`: Range<int>::next yields the current start while start < end and advances it by one; None otherwise
+            cell = A[0][1]
+            while st.cells[cell][0] == 'ref':
+                cell = st.cells[cell][1]
+            rv_ = st.cells[cell]
+            if rv_[0] == 'adt' and rv_[1] in ('std::ops::Range', 'core::ops::Range') and rv_[3]:
+                fl = next(iter(rv_[3].values()))
+                sc, ec = st.cells.get(fl.get('start')), st.cells.get(fl.get('end'))
+                if sc is not None and ec is not None and sc[0] == 'int' and ec[0] == 'int':
+                    outs_ = []
+                    lt_ = self.eval_cmp(st, 'Lt', sc[2], ec[2])
+                    if lt_ is not False:
+                        s1 = st.copy()
+                        try:
+                            self.assume_cmp(s1, 'Lt', sc[2], ec[2], True)
+                            lo_, hi_ = self.rng(s1, sc[2])
+                            nxt = self.mk_int(s1, sc[1], lo_ + 1, hi_ + 1)
+                            s1.rel.add(('lt', sc[2], nxt[2]))
+                            s1.rel.add(('le', nxt[2], ec[2]))
+                            s1.cells[fl['start']] = nxt
+                            outs_.append((s1, self.mk_option(s1, some=('int', sc[1], sc[2]))))
+                        except Infeasible:
+                            pass
+                    if lt_ is not True:
+                        s2 = st.copy()
+                        try:
+                            self.assume_cmp(s2, 'Lt', sc[2], ec[2], False)
+                            outs_.append((s2, self.mk_option(s2, none=True)))
+                        except Infeasible:
+                            pass
+                    if outs_:
+                        return outs_
         if name in ('copied', 'cloned', 'by_ref', 'enumerate') and 'Iterator' in (tr or d) and A:
             # length-preserving adaptors over a window iterator keep its remaining count: ('top', 'iter', n, enumerated)
             v = A[0]
             nvid, en = None, False
             if v[0] == 'adt' and v[1].endswith(('::WindowIterator', '::ReversedWindowIterator')) and v[3]:
                 fl = next(iter(v[3].values()))
-                cc = st.cells.get(fl.get('size')) if 'size' in fl else None
+                import wroles
+                cnt_ = (wroles.window_roles(self.f).iters.get(v[1]) or {}).get('count', 'size')      # the remaining-count field, by role
+                cc = st.cells.get(fl.get(cnt_)) if cnt_ in fl else None
                 if cc is not None and cc[0] == 'int':
                     nvid = cc[2]
             elif v[0] == 'top' and len(v) >= 4:
